@@ -119,6 +119,18 @@ impl<S: Read> DltMessageReader<S> {
     }
 }
 
+/// Accessors for out-of-tree verification harnesses (feature `verif_hooks`). Add-only.
+#[cfg(feature = "verif_hooks")]
+#[doc(hidden)]
+pub mod verif_hooks {
+    use super::*;
+
+    /// (capacity of the buffered source, length of the scratch buffer holding one message)
+    pub fn capacities<S: Read>(reader: &DltMessageReader<S>) -> (usize, usize) {
+        (reader.source.capacity(), reader.buffer.len())
+    }
+}
+
 #[cfg(test)]
 mod tests {
     use super::*;
